@@ -3,7 +3,7 @@ import numpy as np
 from ..runner import Acc, HarnessError
 from ..refmodel import Fmt, ROUNDINGS, quantize, quantize_code, dy_float, scaled, overflow_code
 from .. import alphabet as al
-from ..common import mk, codes, flags, reset_class_state, Fxp, store, ROUTES, carry
+from ..common import warm, mk, codes, flags, reset_class_state, Fxp, store, ROUTES, carry
 from .c01 import qval, in_core, _nw_list
 
 ID = 'C03'
@@ -56,8 +56,13 @@ def shards(tier, seed):
     return out
 
 
-def judge_array(acc, fmt, rounding, ds, part, shift_inv=True):
-    case = {'part': part, 'fmt': list(fmt), 'rounding': rounding, 'vals': [list(d) for d in ds]}
+HISTS = ('copy_resized', 'copy_resized64', 'view_resized', 'resized_back', 'used')
+
+
+def judge_array(acc, fmt, rounding, ds, part, shift_inv=True, hist=None):
+    """hist: the destination is a live object with a history (a shallow copy / view of it was widened, it was wider itself, it was read
+    and operated on) and the values are stored into it with set_val"""
+    case = {'part': part, 'fmt': list(fmt), 'rounding': rounding, 'vals': [list(d) for d in ds], 'hist': hist}
     exp = [quantize(d, fmt, rounding, 'wrap') for d in ds]
     acc.evaluations += len(ds)
     acc.transitions += 1
@@ -67,7 +72,28 @@ def judge_array(acc, fmt, rounding, ds, part, shift_inv=True):
     acc.outcome('in_range', sum(1 for e in exp if not e[1] and not e[2]))
     acc.dim('rounding', rounding, len(ds))
     try:
-        x = mk(np.array([dy_float(d) for d in ds], dtype=np.float64), fmt, rounding, 'wrap')
+        if hist is None:
+            x = mk(np.array([dy_float(d) for d in ds], dtype=np.float64), fmt, rounding, 'wrap')
+        else:
+            x = mk(np.zeros(len(ds)), fmt, rounding, 'wrap')
+            if hist == 'copy_resized':
+                y = x.copy()
+                y.resize(n_word=fmt.n_word + 8)
+            elif hist == 'copy_resized64':
+                y = x.copy()
+                y.resize(n_word=64)
+            elif hist == 'view_resized':
+                y = x[0:1]
+                y.resize(n_word=fmt.n_word + 8)
+                y.set_val(0, raw=True, index=0)
+            elif hist == 'resized_back':
+                x.resize(n_word=fmt.n_word + 8)
+                x.resize(n_word=fmt.n_word)
+            else:
+                warm(x)
+            x.set_val(np.array([dy_float(d) for d in ds], dtype=np.float64))
+            acc.dim('history', hist, len(ds))
+            acc.transitions += 3
         got = codes(x)
         fl = flags(x)
     except Exception as e:
@@ -242,7 +268,37 @@ def run_wide(acc, sh):
                               % (fmt.dtype, cs[i], got[i], expl[i]), {'part': 'd', 'carrier': 'objarr'}, full=case)
         except Exception as e:
             acc.violation('exception', case, 'fmt=%s wrap raw object array raised %r' % (fmt.dtype, e), {'part': 'd', 'carrier': 'objarr'})
+        wide_2d(acc, fmt, cs)
         acc.sample({'part': 'd', 'fmt': list(fmt), 'code': cs[-1], 'route': 'ctor', 'raw': True})
+
+
+def wide_2d(acc, fmt, cs):
+    # the same through 2-d object arrays that are not C-contiguous, and through arithmetic on transposed wide operands
+    m = (len(cs) // 2) * 2
+    L = np.array(cs[:m], dtype=object).reshape(2, -1)
+    for layout in ('C', 'T', 'F', 'rev'):
+        arr = {'C': L, 'T': np.ascontiguousarray(L.T).T, 'F': np.asfortranarray(L), 'rev': np.ascontiguousarray(L[::-1, ::-1])[::-1, ::-1]}[layout]
+        case = {'part': 'd-arr2', 'fmt': list(fmt), 'codes': cs[:m], 'layout': layout}
+        acc.evaluations += m
+        acc.transitions += 2
+        acc.dim('layout', layout, m)
+        try:
+            x = mk(arr, fmt, 'trunc', 'wrap', raw=True)
+            expl = [overflow_code(c, fmt, 'wrap') for c in cs[:m]]
+            if codes(x) != expl or tuple(np.shape(x.val)) != L.shape:
+                acc.violation('code', case, 'fmt=%s wrap raw 2-d object array in layout %s: stored %s..., expected %s...' % (fmt.dtype, layout, codes(x)[:4], expl[:4]),
+                              {'part': 'd', 'carrier': 'objarr2d', 'layout': layout})
+                continue
+            inr = [c if fmt.lo <= c <= fmt.hi else overflow_code(c, fmt, 'wrap') for c in cs[:m]]
+            a = mk(np.array(inr, dtype=object).reshape(-1, 2), fmt, 'trunc', 'wrap', raw=True)
+            z = a.T + a.T if layout == 'T' else (a + a)
+            ez = [overflow_code(2 * c, fmt, 'wrap') for c in (np.array(inr, dtype=object).reshape(-1, 2).T.ravel().tolist() if layout == 'T' else inr)]
+            zz = Fxp(z, like=a) if layout != 'rev' else mk(np.zeros(z.val.shape), fmt, 'trunc', 'wrap').equal(z)
+            if codes(zz) != ez:
+                acc.violation('code', case, 'fmt=%s wrap: sum of 2-d wide operands (%s) narrowed back: %s..., expected %s...' % (fmt.dtype, layout, codes(zz)[:4], ez[:4]),
+                              {'part': 'd', 'carrier': 'sum2d', 'layout': layout})
+        except Exception as e:
+            acc.violation('exception', case, 'fmt=%s wrap raw 2-d object array (%s) raised %r' % (fmt.dtype, layout, e), {'part': 'd', 'carrier': 'objarr2d', 'layout': layout})
 
 
 def wide_store(fmt, c, route, raw):
@@ -375,6 +431,9 @@ def run_shard(sh):
             ds = [qval(k, fmt) for k in al.quarter_sweep(fmt, 2)]
             for r in ROUNDINGS:
                 judge_array(acc, fmt, r, ds, 'a')
+            if nw <= 4:
+                for h in HISTS:
+                    judge_array(acc, fmt, ROUNDINGS[(nf + HISTS.index(h)) % len(ROUNDINGS)], ds, 'a', False, h)
     elif part == 'as':
         for nf in range(-8, nw + 9):
             fmt = Fmt(sh['signed'], nw, nf)
@@ -400,6 +459,9 @@ def run_shard(sh):
             if ds:
                 for r in ROUNDINGS:
                     judge_array(acc, fmt, r, ds, 'b')
+                if nw in (8, 16, 32, 52):
+                    for h in HISTS:
+                        judge_array(acc, fmt, ROUNDINGS[(nf + HISTS.index(h)) % len(ROUNDINGS)], ds, 'b', False, h)
     elif part == 'd':
         run_wide(acc, sh)
     elif part == 'h':
@@ -476,6 +538,9 @@ def replay(case):
                 acc.violation('code', case, 'stored %d flags %s expected %d' % (got, fl[:2], exp), {'part': 'd', 'route': case['route'], 'raw': raw})
         except Exception as e:
             acc.violation('exception', case, repr(e), {'part': 'd', 'route': case['route'], 'raw': raw})
+    elif part == 'd-arr2':
+        wide_2d(acc, fmt, case['codes'])
+        return [v for v in acc.violations if v['case'].get('layout') == case['layout']]
     elif part == 'd-arr':
         cs = case['codes']
         try:
@@ -497,7 +562,7 @@ def replay(case):
     elif 'carrier' in case:
         judge_scalar(acc, fmt, case['rounding'], tuple(case['vals'][0]), case['carrier'], case['route'], part)
     else:
-        judge_array(acc, fmt, case['rounding'], [tuple(d) for d in case['vals']], part, shift_inv=False)
+        judge_array(acc, fmt, case['rounding'], [tuple(d) for d in case['vals']], part, shift_inv=False, hist=case.get('hist'))
     return acc.violations
 
 
